@@ -118,4 +118,14 @@ PROPS = {
         ],
         "wall_timeout": {"quick": 1200, "thorough": 7200},
     },
+    "C18": {
+        "shards": 16,
+        "level_text": "Arbitrary proto3 files are generated as text and linked through protocompile: a systematic matrix (every scalar kind incl. fixed/sfixed, every well-known and j5 type, enums with and without _UNSPECIFIED, in singular/optional/repeated/map/oneof/exposed-oneof position; every (j5.ext.v1.*)/(buf.validate.field)/(j5.list.v1.field) option snippet on fields of 15 kinds x 3 cardinalities whether or not it fits; recursion, flatten and wrapper shapes incl. self- and mutually-flattening messages) plus random files. SchemaSetFromFiles, SchemaCache.Schema and Reflector.NewRoot run in journalled children. Oracle: schema or error (never panic / fatal stack overflow / CPU overrun / nil,nil); on success every recorded proto path resolves to a field of the matching kind, member names are unique, and the codec encodes and decodes an empty and a populated message of the type.",
+        "level_note": "Files the generator writes but protocompile rejects are outside the quantified space and only counted. Kind matching is the harness's table from J5 schema type to proto kinds.",
+        "rule": "one evaluation per generated file that links; every file is non-trivial; distinct by hash of the source text.",
+        "floors": ["c18:systematic-type", "c18:systematic-option", "c18:systematic-shape", "c18:random"],
+        "assumptions": COMMON_ASSUMPTIONS + [
+            "populated messages hold representable values only (valid dates, decimals, finite floats, defined enum numbers); Any fields are left empty",
+        ],
+    },
 }
